@@ -292,6 +292,23 @@ def run_case(ctx, rng, kind, centered, n_dim, n_cov, n_ids, sel_mode,
                       'psi_relation:' + kind,
                       {'covariate_model': psi, 'per_individual': psi_ref,
                        'case': feats}, feats)
+    # the optional flag return_eta: models with bottom-level parameters
+    # hand back the fluctuations they were given, models without any (pooled,
+    # heterogeneous) still return the covariate-shifted parameters
+    try:
+        psi_e = np.asarray(model.compute_individual_parameters(
+            top, obs, cov, return_eta=True), dtype=float)
+        ctx.count('return_eta_calls')
+        want_e = np.asarray(obs, dtype=float) if kind in 'GLT' else psi_ref
+        if psi_e.shape != (n_ids, n_dim) or not ctx.close(
+                psi_e, want_e, rtol=1e-12):
+            ctx.violation('equals_underlying_model_per_individual',
+                          'psi_relation_return_eta:' + kind,
+                          {'covariate_model': psi_e, 'expected': want_e,
+                           'case': feats}, feats)
+    except Exception as e:      # noqa
+        ctx.violation_exc('evaluation_raises', e,
+                          {'case': feats, 'call': 'return_eta'}, feats)
     # what an evaluation returned stays what it was when the model is
     # evaluated again at other parameters / covariates (one list of results
     # per posterior draw is the usual way to summarise a fit)
